@@ -220,6 +220,16 @@ def runtime_checks():
                             bad.append(dict(case='ith_unit = -1 does not select the last output unit', condition=cname, outputs=n_out))
                 except Exception as e:
                     bad.append(dict(case='ith_unit enforce raised', condition=cname, unit=j, outputs=n_out, error=f'{type(e).__name__}: {e}'))
+    # the width check holds on EVERY use of an ensemble object, not only on the first
+    ens = EnsembleCondition(IVP(0., 1.), IVP(0., 2.))
+    tt = torch.rand(3, 1)
+    ens.enforce(FCNN(1, 2, hidden_units=(3,)), tt)
+    for wider in (3, 4):
+        try:
+            out = ens.enforce(FCNN(1, wider, hidden_units=(3,)), tt)
+            bad.append(dict(case='mismatch-accepted on a later use of the same ensemble object', outputs=wider, conditions=2, shape=list(out.shape)))
+        except ValueError:
+            pass
     # a condition bound to one unit and later re-bound to another (the same conditions reused for a second single-network solve)
     import warnings as _w
     with _w.catch_warnings():
